@@ -51,6 +51,9 @@ def handle : Handler := fun op args =>
       "ok " ++ showNats (Lp.MT.outputs n (Lp.MT.seed (UInt32.ofNat sd)) []).1
   | "c18.canon" => withArgs (do let g ← pGen; let n ← pNat; pure (g, n)) args fun (g, n) =>
       "ok " ++ showRats (Lp.MT.canonicals n g.g []).1
+  | "c18.canonz" => withArgs (do let sd ← pNat; let ks ← pList pNat; let n ← pNat; pure (sd, ks, n)) args fun (sd, ks, n) =>
+      if ks.any (fun k => 1 + 2 * k + 1 ≥ 624) then "bad-args" else
+      "ok " ++ showRats (Lp.MT.canonicals n (Lp.MT.zeroed sd ks) []).1
   | "c18.uniform" => withArgs (do let g ← pGen; let a ← pRat; let b ← pRat; pure (g, a, b)) args fun (g, a, b) =>
       match sampleUniformG CG.u01 g a b with
       | .ok r => "ok " ++ showRat r.1 ++ " " ++ toString r.2.n
